@@ -433,6 +433,31 @@ func runC12(c *Ctx) {
 						}
 					}
 				}
+				// the store and the kernel call both live in a helper that receives the kernel function as an argument
+				for _, d := range deepStoresTo(fn, f) {
+					if d.Site != a.Instr || d.Store.Parent() == fn {
+						continue
+					}
+					eachInstr(d.Store.Parent(), func(in ssa.Instruction) {
+						kc, ok := in.(*ssa.Call)
+						if !ok || !isDynamicFuncCall(kc) || sp.fromResult {
+							return
+						}
+						q, isPrm := stripConv(kc.Call.Value).(*ssa.Parameter)
+						if !isPrm {
+							return
+						}
+						bound, _ := stripConv(d.subst[q]).(*ssa.Function)
+						if bound != sp.call || !guardedNil(d.Store.Block(), kc) {
+							return
+						}
+						for _, arg := range kc.Call.Args[1:] {
+							if stripConv(resolveCell(arg)) == stripConv(resolveCell(d.Store.Val)) {
+								good = true
+							}
+						}
+					})
+				}
 				c.check(good, fn, "cache "+sp.field, a.Instr.Pos(), "stored only after the kernel accepted exactly that value", "the cached "+sp.field+" is stored without the kernel call having succeeded with that value: the reported setting can differ from the socket's state")
 			}
 			if n == 0 {
